@@ -12,6 +12,7 @@ import (
 	"time"
 
 	"github.com/fxamacker/cbor/v2"
+	"verif/harness/catalog"
 )
 
 // values.go: abstract value -> real Go value under a numeric embedding, and back.
@@ -20,7 +21,7 @@ import (
 type (
 	NamedInt64   int64
 	NamedFloat64 float64
-	NamedStr     string
+	NamedStr     = catalog.NamedStr
 	NamedBool    bool
 )
 
@@ -205,6 +206,8 @@ func ToGo(v *Value, e *Embedding) (any, error) {
 		return re, nil
 	case "junk":
 		return JunkValue(v.S)
+	case "struct":
+		return structToGo(v, e)
 	case "list":
 		elems := make([]any, len(v.List))
 		for i, x := range v.List {
@@ -318,6 +321,103 @@ func ToGo(v *Value, e *Embedding) (any, error) {
 		return nil, fmt.Errorf("unknown map representation %q", v.Rep)
 	}
 	return nil, fmt.Errorf("unknown value kind %q", v.K)
+}
+
+// assign stores a concretised value into a struct field (pointer fields get a fresh pointee,
+// empty typed containers take the field's type, sub-structs by value / by pointer are adapted).
+func assign(field reflect.Value, g any) error {
+	if g == nil {
+		return nil // nil pointer / nil interface / nil slice: the zero value
+	}
+	ft := field.Type()
+	gv := reflect.ValueOf(g)
+	if gv.Type() == ft {
+		field.Set(gv)
+		return nil
+	}
+	if ft.Kind() == reflect.Interface {
+		field.Set(gv)
+		return nil
+	}
+	if ft.Kind() == reflect.Pointer {
+		if gv.Kind() == reflect.Pointer {
+			return notRep("field %s cannot hold %T", ft, g)
+		}
+		p := reflect.New(ft.Elem())
+		if err := assign(p.Elem(), g); err != nil {
+			return err
+		}
+		field.Set(p)
+		return nil
+	}
+	if gv.Kind() == reflect.Pointer && gv.Type().Elem() == ft && !gv.IsNil() {
+		field.Set(gv.Elem())
+		return nil
+	}
+	switch ft.Kind() {
+	case reflect.Slice:
+		if gv.Kind() != reflect.Slice {
+			return notRep("field %s cannot hold %T", ft, g)
+		}
+		out := reflect.MakeSlice(ft, gv.Len(), gv.Len())
+		for i := 0; i < gv.Len(); i++ {
+			if err := assign(out.Index(i), gv.Index(i).Interface()); err != nil {
+				return err
+			}
+		}
+		field.Set(out)
+		return nil
+	case reflect.Map:
+		if gv.Kind() != reflect.Map {
+			return notRep("field %s cannot hold %T", ft, g)
+		}
+		out := reflect.MakeMapWithSize(ft, gv.Len())
+		for iter := gv.MapRange(); iter.Next(); {
+			k, w := reflect.New(ft.Key()).Elem(), reflect.New(ft.Elem()).Elem()
+			if err := assign(k, iter.Key().Interface()); err != nil {
+				return err
+			}
+			if err := assign(w, iter.Value().Interface()); err != nil {
+				return err
+			}
+			out.SetMapIndex(k, w)
+		}
+		field.Set(out)
+		return nil
+	}
+	if gv.Type().Kind() == ft.Kind() && gv.Type().ConvertibleTo(ft) && ft.Kind() != reflect.Struct {
+		field.Set(gv.Convert(ft))
+		return nil
+	}
+	return notRep("field %s cannot hold %T", ft, g)
+}
+
+func structToGo(v *Value, e *Embedding) (any, error) {
+	lay := catalog.ByID(v.T)
+	if lay == nil {
+		return nil, fmt.Errorf("unknown layout %q", v.T)
+	}
+	p := reflect.New(lay.Struct)
+	for _, f := range v.Fields {
+		fd, ok := lay.FieldByProp(f.Name)
+		if !ok {
+			return nil, fmt.Errorf("layout %s has no field for property %q", v.T, f.Name)
+		}
+		if !f.Val.Some {
+			continue
+		}
+		g, err := ToGo(f.Val.V, e)
+		if err != nil {
+			return nil, err
+		}
+		if err := assign(p.Elem().FieldByName(fd.Go), g); err != nil {
+			return nil, err
+		}
+	}
+	if lay.Pointer {
+		return p.Interface(), nil
+	}
+	return p.Elem().Interface(), nil
 }
 
 var tAny = reflect.TypeOf((*any)(nil)).Elem()
@@ -513,4 +613,165 @@ func FromGo(x any, e *Embedding) (*Value, error) {
 		return &Value{K: "junk", S: "ptr"}, nil
 	}
 	return nil, inexp("value of type %T", x)
+}
+
+// Resolver abstracts values with the schema at hand: struct-mapped objects are abstracted to
+// their DECLARED properties (spec/Values.tla), references are looked up in the enclosing scope.
+type Resolver struct {
+	E    *Embedding
+	objs map[string]*Schema
+}
+
+// FromGoS abstracts x as a native value of s.
+func FromGoS(x any, e *Embedding, s *Schema) (*Value, error) {
+	r := &Resolver{E: e}
+	return r.from(x, s)
+}
+
+func (r *Resolver) from(x any, s *Schema) (*Value, error) {
+	if s == nil || x == nil {
+		return FromGo(x, r.E)
+	}
+	switch s.Kind {
+	case "scope":
+		inner := &Resolver{E: r.E, objs: map[string]*Schema{}}
+		for _, o := range s.Objects {
+			inner.objs[o.ID] = o
+		}
+		return inner.from(x, inner.objs[s.Root])
+	case "ref":
+		if o, ok := r.objs[s.ID]; ok {
+			return r.from(x, o)
+		}
+		return FromGo(x, r.E)
+	case "list":
+		rv := reflect.ValueOf(x)
+		if rv.Kind() != reflect.Slice {
+			return FromGo(x, r.E)
+		}
+		rep := "typed"
+		if rv.Type() == tAnySlice {
+			rep = "any"
+		}
+		out := &Value{K: "list", Rep: rep, List: []*Value{}}
+		for i := 0; i < rv.Len(); i++ {
+			a, err := r.from(rv.Index(i).Interface(), s.Items)
+			if err != nil {
+				return nil, err
+			}
+			out.List = append(out.List, a)
+		}
+		return out, nil
+	case "map":
+		rv := reflect.ValueOf(x)
+		if rv.Kind() != reflect.Map {
+			return FromGo(x, r.E)
+		}
+		base, err := FromGo(reflect.MakeMap(rv.Type()).Interface(), r.E)
+		if err != nil {
+			return nil, err
+		}
+		out := &Value{K: "map", Rep: base.Rep, Pairs: [][2]*Value{}}
+		for iter := rv.MapRange(); iter.Next(); {
+			ka, err := r.from(iter.Key().Interface(), s.Keys)
+			if err != nil {
+				return nil, err
+			}
+			va, err := r.from(iter.Value().Interface(), s.Vals)
+			if err != nil {
+				return nil, err
+			}
+			out.Pairs = append(out.Pairs, [2]*Value{ka, va})
+		}
+		sort.Slice(out.Pairs, func(i, j int) bool { return out.Pairs[i][0].Canon() < out.Pairs[j][0].Canon() })
+		return out, nil
+	case "oneof":
+		if lay := catalog.ByType(reflect.TypeOf(x)); lay != nil {
+			for _, m := range s.Members {
+				ms := m.S
+				if ms.Kind == "ref" {
+					if o, ok := r.objs[ms.ID]; ok {
+						ms = o
+					}
+				}
+				if ms.Kind == "object" && ms.Layout == lay.ID {
+					return r.from(x, ms)
+				}
+			}
+		}
+		return FromGo(x, r.E)
+	case "object":
+		if s.Layout == "map" {
+			m, ok := x.(map[string]any)
+			if !ok {
+				return FromGo(x, r.E)
+			}
+			out := &Value{K: "map", Rep: "string_any", Pairs: [][2]*Value{}}
+			for k, w := range m {
+				ka, err := FromGo(k, r.E)
+				if err != nil {
+					return nil, err
+				}
+				var ps *Schema
+				for _, p := range s.Props {
+					if p.Name == k {
+						ps = p.Type
+					}
+				}
+				va, err := r.from(w, ps)
+				if err != nil {
+					return nil, err
+				}
+				out.Pairs = append(out.Pairs, [2]*Value{ka, va})
+			}
+			sort.Slice(out.Pairs, func(i, j int) bool { return out.Pairs[i][0].Canon() < out.Pairs[j][0].Canon() })
+			return out, nil
+		}
+		lay := catalog.ByID(s.Layout)
+		if lay == nil || reflect.TypeOf(x) != lay.Type {
+			return FromGo(x, r.E)
+		}
+		rv := reflect.ValueOf(x)
+		if lay.Pointer {
+			if rv.IsNil() {
+				return &Value{K: "junk", S: "nilptr"}, nil
+			}
+			rv = rv.Elem()
+		}
+		out := &Value{K: "struct", T: s.Layout, Fields: []StructField{}}
+		for _, p := range s.Props {
+			fd, ok := lay.FieldByProp(p.Name)
+			if !ok {
+				return nil, fmt.Errorf("layout %s has no field for property %q", s.Layout, p.Name)
+			}
+			fv := rv.FieldByName(fd.Go)
+			sf := StructField{Name: p.Name}
+			pt := p.Type
+			if pt.Kind == "ref" {
+				if o, ok := r.objs[pt.ID]; ok {
+					pt = o
+				}
+			}
+			switch {
+			case (fv.Kind() == reflect.Pointer || fv.Kind() == reflect.Interface) && fv.IsNil():
+				// absent
+			default:
+				var inner any
+				ptrLayout := pt.Kind == "object" && pt.Layout != "map" && catalog.ByID(pt.Layout) != nil && catalog.ByID(pt.Layout).Pointer
+				if fv.Kind() == reflect.Pointer && !ptrLayout {
+					inner = fv.Elem().Interface()
+				} else {
+					inner = fv.Interface()
+				}
+				a, err := r.from(inner, pt)
+				if err != nil {
+					return nil, err
+				}
+				sf.Val = OptValue{Some: true, V: a}
+			}
+			out.Fields = append(out.Fields, sf)
+		}
+		return out, nil
+	}
+	return FromGo(x, r.E)
 }
